@@ -225,6 +225,8 @@ def header_exprs(s: ast.stmt):
 
 
 def stmt_has(s: ast.stmt, test: Callable[[ast.AST], bool]) -> bool:
+    if isinstance(s, (ast.Assign, ast.AnnAssign, ast.AugAssign)) and test(s):
+        return True
     for e in header_exprs(s):
         for n in ast.walk(e):
             if isinstance(n, ast.Lambda):
